@@ -19,7 +19,7 @@ func init() {
 			"the hash partitioner consults its fallback only for nil keys, resets the hasher before writing, and requires consistency exactly for keyed messages (C17.consistent); no partitioner is installed as its own fallback and every option constructor uses its argument (C17.no-self); " +
 			"the producer offers all partitions to consistency-requiring choices and writable ones otherwise, refuses when there are none, range-checks the choice before indexing and fails the message on error (C17.producer, with C04.partition-once). " +
 			"NOT covered: equality of the hash with the Java client's, uniformity of random/round-robin.",
-		Rules: []func(*Ctx){c17Range, c17Consistent, c17NoSelf, c17Producer, c17OwnHasher, c04PartitionOnce, c15ReadSets, c01ErrLost, c15Pair},
+		Rules: []func(*Ctx){c17Range, c17Consistent, c17NoSelf, c17Producer, c17OwnHasher, c04PartitionOnce, c15ReadSets, c01ErrLost, c15Pair, c17HashAlwaysConsistent},
 	})
 }
 
